@@ -68,6 +68,22 @@ fn is_atom(e: &R) -> bool {
     matches!(e, R::Lit(_) | R::Any | R::Class(..) | R::Group(_) | R::Look(..) | R::Atomic(_) | R::Backref(_) | R::CondGroup(..) | R::CondExpr(..))
 }
 
+thread_local! {
+    /// rendering mode: groups as `(?<gN>..)`, references as `\\k<gN>` / `(?(<gN>)..)` instead of numbers
+    static NAMED: std::cell::Cell<bool> = std::cell::Cell::new(false);
+    static NEXT_GROUP: std::cell::Cell<usize> = std::cell::Cell::new(0);
+}
+
+/// the pattern text of a whole tree; `named`: every group gets the name g<number> and is referred to by it
+pub fn render_top(e: &R, named: bool) -> String {
+    NAMED.with(|n| n.set(named));
+    NEXT_GROUP.with(|n| n.set(0));
+    let mut out = String::new();
+    render(e, &mut out);
+    NAMED.with(|n| n.set(false));
+    out
+}
+
 pub fn render(e: &R, out: &mut String) {
     match e {
         R::Empty => {}
@@ -115,7 +131,12 @@ pub fn render(e: &R, out: &mut String) {
             }
         }
         R::Group(c) => {
-            out.push('(');
+            let g = NEXT_GROUP.with(|n| { let v = n.get() + 1; n.set(v); v });
+            if NAMED.with(|n| n.get()) {
+                out.push_str(&format!("(?<g{}>", g));
+            } else {
+                out.push('(');
+            }
             render(c, out);
             out.push(')');
         }
@@ -156,10 +177,20 @@ pub fn render(e: &R, out: &mut String) {
             render(c, out);
             out.push(')');
         }
-        R::Backref(n) => out.push_str(&format!("\\{}", n)),
+        R::Backref(n) => {
+            if NAMED.with(|x| x.get()) {
+                out.push_str(&format!("\\k<g{}>", n))
+            } else {
+                out.push_str(&format!("\\{}", n))
+            }
+        }
         R::KeepOut => out.push_str("\\K"),
         R::CondGroup(n, t, f) => {
-            out.push_str(&format!("(?({})", n));
+            if NAMED.with(|x| x.get()) {
+                out.push_str(&format!("(?(<g{}>)", n));
+            } else {
+                out.push_str(&format!("(?({})", n));
+            }
             render_branches(t, f, out);
             out.push(')');
         }
@@ -706,7 +737,7 @@ impl Gen {
                 _ => R::NotWordB,
             },
             _ => {
-                if cx.no_cond || cx.behind {
+                if cx.no_cond {
                     return self.atom();
                 }
                 if self.closed > 0 && self.rng.below(3) != 0 {
@@ -868,27 +899,86 @@ fn compare(e: &R, pat: &str, re: &Regex, text: &str, budget: &mut Budget) -> Opt
     }
 }
 
+/// a size that is constant by construction (fixed-size pieces, fixed counts, equally long alternatives / branches); None = not obviously so
+fn clearly_const(e: &R) -> Option<usize> {
+    match e {
+        R::Empty | R::Start | R::End | R::WordB | R::NotWordB | R::KeepOut | R::Look(..) => Some(0),
+        R::Lit(_) | R::Any | R::Class(..) => Some(1),
+        R::Cat(v) => v.iter().map(clearly_const).try_fold(0usize, |a, b| b.map(|b| a + b)),
+        R::Alt(v) => {
+            let first = clearly_const(v.first()?)?;
+            if v.iter().all(|c| clearly_const(c) == Some(first)) { Some(first) } else { None }
+        }
+        R::Group(c) | R::Atomic(c) => clearly_const(c),
+        R::Rep(c, lo, hi, _) => if *hi == Some(*lo) { clearly_const(c).map(|x| x * lo) } else { None },
+        R::Backref(_) => None,
+        R::CondGroup(_, t, f) => { let a = clearly_const(t)?; if clearly_const(f)? == a { Some(a) } else { None } }
+        R::CondExpr(c, t, f) => { let a = clearly_const(c)? + clearly_const(t)?; if clearly_const(f)? == a { Some(a) } else { None } }
+    }
+}
+/// every look-behind body is constant-size by construction (a top-level alternation: alternative by alternative)
+fn lookbehinds_clearly_const(e: &R) -> bool {
+    let kids_ok = |v: &Vec<R>| v.iter().all(lookbehinds_clearly_const);
+    match e {
+        R::Cat(v) | R::Alt(v) => kids_ok(v),
+        R::Group(c) | R::Atomic(c) | R::Rep(c, ..) => lookbehinds_clearly_const(c),
+        R::Look(c, k) => {
+            let here = if matches!(k, LookKind::Behind | LookKind::BehindNeg) {
+                match &**c {
+                    R::Alt(v) => v.iter().all(|a| clearly_const(a).is_some()),
+                    other => clearly_const(other).is_some(),
+                }
+            } else {
+                true
+            };
+            here && lookbehinds_clearly_const(c)
+        }
+        R::CondGroup(_, t, f) => lookbehinds_clearly_const(t) && lookbehinds_clearly_const(f),
+        R::CondExpr(c, t, f) => lookbehinds_clearly_const(c) && lookbehinds_clearly_const(t) && lookbehinds_clearly_const(f),
+        _ => true,
+    }
+}
+fn has_refs(e: &R) -> bool {
+    match e {
+        R::Backref(_) | R::CondGroup(..) => true,
+        R::Cat(v) | R::Alt(v) => v.iter().any(has_refs),
+        R::Group(c) | R::Atomic(c) | R::Rep(c, ..) | R::Look(c, _) => has_refs(c),
+        R::CondExpr(c, t, f) => has_refs(c) || has_refs(t) || has_refs(f),
+        _ => false,
+    }
+}
+
 fn check_pattern(e: &R, texts: &[String], budget: &mut Budget) -> Option<(Value, String)> {
     if !acceptable(e) {
         return None;
     }
-    let mut pat = String::new();
-    render(e, &mut pat);
-    let re = match catch_unwind(AssertUnwindSafe(|| Regex::new(&pat))) {
-        Err(_) => return Some((json!({"pattern": pat, "text": "", "pos": 0}), "panic in Regex::new".into())),
-        // patterns the crate refuses (e.g. variable-size look-behind) are outside the property
-        Ok(Err(_)) => return None,
-        Ok(Ok(re)) => re,
-    };
-    if re.captures_len() != count_groups(e) + 1 {
-        return Some((
-            json!({"pattern": pat, "text": "", "pos": 0}),
-            format!("captures_len() = {} but the pattern has {} groups", re.captures_len(), count_groups(e)),
-        ));
-    }
-    for t in texts {
-        if let Some(w) = compare(e, &pat, &re, t, budget) {
-            return Some(w);
+    // numbered spelling, and -- when the pattern refers to groups -- the spelling with named groups and named references
+    let spellings: Vec<bool> = if count_groups(e) > 0 && has_refs(e) { vec![false, true] } else { vec![false] };
+    for named in spellings {
+        let pat = render_top(e, named);
+        let re = match catch_unwind(AssertUnwindSafe(|| Regex::new(&pat))) {
+            Err(_) => return Some((json!({"pattern": pat, "text": "", "pos": 0, "named": named}), "panic in Regex::new".into())),
+            Ok(Err(err)) => {
+                // patterns the crate refuses are outside the property, except: a look-behind that is constant-size by construction is accepted
+                if format!("{:?}", err).contains("LookBehindNotConst") && lookbehinds_clearly_const(e) {
+                    return Some((json!({"pattern": pat, "text": "", "pos": 0, "named": named}),
+                        "rejected with LookBehindNotConst although every look-behind body is constant-size by construction".into()));
+                }
+                continue;
+            }
+            Ok(Ok(re)) => re,
+        };
+        if re.captures_len() != count_groups(e) + 1 {
+            return Some((
+                json!({"pattern": pat, "text": "", "pos": 0, "named": named}),
+                format!("captures_len() = {} but the pattern has {} groups", re.captures_len(), count_groups(e)),
+            ));
+        }
+        for t in texts {
+            if let Some((mut w, d)) = compare(e, &pat, &re, t, budget) {
+                w["named"] = json!(named);
+                return Some((w, d));
+            }
         }
     }
     None
@@ -896,12 +986,10 @@ fn check_pattern(e: &R, texts: &[String], budget: &mut Budget) -> Option<(Value,
 
 /// the rendered pattern of generator coordinates (used by other families as a pattern source)
 pub fn rendered(seed: u64, index: u64) -> String {
-    let mut pat = String::new();
-    render(&regenerate(seed, index), &mut pat);
-    pat
+    render_top(&regenerate(seed, index), false)
 }
 pub fn fixed_rendered() -> Vec<String> {
-    fixed_patterns().iter().map(|e| { let mut p = String::new(); render(e, &mut p); p }).collect()
+    fixed_patterns().iter().map(|e| render_top(e, false)).collect()
 }
 
 /// parse a witness pattern back: witnesses carry the generator coordinates instead
@@ -968,8 +1056,7 @@ impl Family for RefSem {
     fn run(&self, w: &Value) -> Option<String> {
         let gen = w["gen"].as_array()?;
         let e = regenerate(gen[0].as_u64()?, gen[1].as_u64()?);
-        let mut pat = String::new();
-        render(&e, &mut pat);
+        let pat = render_top(&e, w["named"].as_bool().unwrap_or(false));
         if Some(pat.as_str()) != w["pattern"].as_str() {
             return Some(format!("witness does not regenerate (got /{}/)", pat));
         }
